@@ -126,6 +126,8 @@ def run(chk):
     chk.cov["oracle"]["twin"] = stats
     directed(chk)
     equal_but_different(chk, rng)
+    dotted_imports(chk, rng)
+    overlapping_probes(chk, rng)
 
 
 # every position at which Python binds a name, once, with the focus `x` bound THERE (the random programs reach the
@@ -238,6 +240,143 @@ def equal_but_different(chk, rng):
             chk.violation("oracle", "%s: the bindings of %s carry %r, the values bound were %r (compared by type, repr "
                           "and identity)" % (sel, focus, got, want),
                           {"source": ESRC, "selector": sel, "args": [arg_n, arg_items, arg_flag]})
+        pyprog.drop_module(mod)
+
+
+ISRC = """
+%(globs)s
+
+def f1(n):
+    k = n + 1
+    import json
+    return (json, k)
+
+def f2(n):
+    k = n + 1
+    import os.path
+    return (os.path.basename("a/b"), k)
+
+def f3(n):
+    k = n + 1
+    import xml.etree.ElementTree
+    return (xml.etree.ElementTree.Element("t").tag, k)
+
+def f4(n):
+    k = n + 1
+    import email.mime.text, xml.etree.ElementTree as ET
+    m = email
+    return (m, ET, k)
+
+def f5(n):
+    k = n + 1
+    from xml.etree import ElementTree as xml
+    return (xml, k)
+"""
+
+
+def dotted_imports(chk, rng):
+    """`import a.b.c` binds `a` — once, by the import, with the module `a` — whether or not the function's module
+    has a global of that name; `import a.b.c as z` binds z to the last component"""
+    import importlib
+    import ptera
+    cases = [("f1", "json", "json"), ("f2", "os", "os"), ("f3", "xml", "xml"), ("f4", "email", "email"),
+             ("f4", "ET", "xml.etree.ElementTree"), ("f4", "m", "email"), ("f5", "xml", "xml.etree.ElementTree")]
+    for with_globals in (True, False):
+        globs = "import json, os, xml, email\nET = 0" if with_globals else ""
+        mod = pyprog.make_module(ISRC % {"globs": globs}, "verif_c02_imp")
+        for fname, focus, modname in cases:
+            for ctx in ([], ["k"]):
+                sel = "%s(%s) > %s" % (fname, ", ".join(ctx), focus) if ctx else "%s > %s" % (fname, focus)
+                arg = rng.randrange(0, 9)
+                with ptera.probing(sel, env=mod.__dict__) as pr:
+                    evs = pr.accum()
+                    getattr(mod, fname)(arg)
+                want = {focus: importlib.import_module(modname)}
+                if ctx:
+                    want["k"] = arg + 1
+                ok = len(evs) == 1 and set(evs[0]) == set(want) and all(evs[0][q] is want[q] or evs[0][q] == want[q] for q in want) \
+                    and evs[0][focus] is want[focus]
+                chk.count(("dotted-import", with_globals, sel), nontrivial=True)
+                chk.dist("dotted import, module global of the same name" if with_globals else "dotted import")
+                if not ok:
+                    chk.violation("oracle", "%s: the import binds %s once (to module %s); the stream is %s" % (
+                        sel, focus, modname, [sorted((q, getattr(v, "__name__", v)) for q, v in e.items()) for e in evs][:4]),
+                        {"source": ISRC % {"globs": globs}, "selector": sel, "args": [arg]})
+        pyprog.drop_module(mod)
+
+
+OSRC = """
+def f(n):
+    k = n * 2
+    x = k + 1
+    for i in range(2):
+        x += i
+    return x
+
+def g(n):
+    t = n + 1
+    return t
+"""
+
+
+def overlapping_probes(chk, rng):
+    """probes whose active periods overlap without being nested (activate / deactivate in any order): each one's
+    stream is the binding history of its focus over exactly the calls made while it was active"""
+    import ptera
+    sels = ["f(k) > x", "g > t", "f > k", "f(x) > i", "g(n) > t"]
+
+    def history(sel, n):
+        k = n * 2
+        if sel == "f(k) > x":
+            return [{"k": k, "x": k + 1}, {"k": k, "x": k + 1}, {"k": k, "x": k + 2}]
+        if sel == "g > t":
+            return [{"t": n + 1}]
+        if sel == "f > k":
+            return [{"k": k}]
+        if sel == "f(x) > i":
+            return [{"x": k + 1, "i": 0}, {"x": k + 1, "i": 1}]
+        return [{"n": n, "t": n + 1}]
+
+    for _ in range(12 if chk.tier == "quick" else 300):
+        mod = pyprog.make_module(OSRC, "verif_c02_ov")
+        chosen = rng.sample(sels, rng.randrange(2, 4))
+        probes = {s_: ptera.probing(s_, env=mod.__dict__) for s_ in chosen}
+        got = {s_: probes[s_].accum() for s_ in chosen}
+        want = {s_: [] for s_ in chosen}
+        pending, active, ops = list(chosen), [], []
+        rng.shuffle(pending)
+        try:
+            while pending or active:
+                r = rng.random()
+                if pending and (r < 0.35 or not active):
+                    s_ = pending.pop()
+                    probes[s_].activate()
+                    active.append(s_)
+                    ops.append("activate " + s_)
+                elif active and r < 0.6:
+                    s_ = active.pop(rng.randrange(len(active)))       # any of them: not the last one entered
+                    probes[s_].deactivate()
+                    ops.append("deactivate " + s_)
+                else:
+                    n = rng.randrange(0, 6)
+                    mod.f(n), mod.g(n)
+                    ops.append("f(%d); g(%d)" % (n, n))
+                    for s_ in active:
+                        want[s_] += history(s_, n)
+            mod.f(1), mod.g(1)
+        finally:
+            for s_ in active:
+                probes[s_].deactivate()
+        nested = all(ops.index("deactivate " + a) > ops.index("deactivate " + b) for a in chosen for b in chosen
+                     if ops.index("activate " + a) < ops.index("activate " + b) < ops.index("deactivate " + a))
+        chk.count(("overlapping", tuple(ops)), nontrivial=not nested)
+        chk.dist("probes nested" if nested else "probes overlapping, not nested")
+        for s_ in chosen:
+            if got[s_] != want[s_]:
+                chk.violation("oracle", "%s, active over part of the history %s: its stream is %s, the bindings of its "
+                              "focus while it was active are %s" % (s_, ops, got[s_][:8], want[s_][:8]),
+                              {"source": OSRC, "ops": ops, "selector": s_})
+                break
         pyprog.drop_module(mod)
 
 
